@@ -167,6 +167,9 @@ def restore(p):
     elif mode == 'decorated':
         import checks.fam_prec as me
         outs = ob.run(me._decorated, [fn, Unknown('arg'), Unknown('f')], {}, heap=heap)
+    elif mode == 'reentrant':
+        import checks.fam_prec as me
+        outs = ob.run(me._reentrant, [fn, Unknown('arg'), Unknown('body')], {}, heap=heap)
     else:
         raise Unsupported(mode)
     exits = dict(normal=0, raising=0)
@@ -249,7 +252,22 @@ def _decorated(mgr_factory, arg, f):
     return g()
 
 
-# the two driver functions above are interpreted by the engine like mpmath code
+def _reentrant(mgr_factory, arg, body):
+    # one manager object used re-entrantly: as a decorator whose function enters the same manager again
+    m = mgr_factory(arg)
+
+    def inner():
+        with m:
+            body()
+        return body()
+    g = m(inner)
+    return g()
+
+
+_reentrant._pysym_interpret = True
+
+
+# the driver functions above are interpreted by the engine like mpmath code
 _with_body._pysym_interpret = True
 _decorated._pysym_interpret = True
 
@@ -313,12 +331,21 @@ def restore_concrete(p, m):
             ctx.prec = 53
             return False, 'entered %s with (prec, dps) = %r, left with %r after: %s' % (name, want, got, what)
         return None
-    if mode in ('with', 'decorated'):
+    if mode in ('with', 'decorated', 'reentrant'):
         for P in precs:
             for fault in (False, True):
                 ctx.prec = P
                 try:
-                    if mode == 'with':
+                    if mode == 'reentrant':
+                        m_ = fn(7)
+
+                        def inner_():
+                            with m_:
+                                if fault:
+                                    raise ZeroDivisionError
+                            return ctx.mpf(1)
+                        m_(inner_)()
+                    elif mode == 'with':
                         with fn(77):
                             if fault:
                                 raise ZeroDivisionError
